@@ -14,7 +14,7 @@ PROPS["C12"] = {
         {"name": "C12_kat", "status": "proved", "statement": "non-vacuity: a libsodium known answer, by vm_compute"},
     ],
     "gen_obligations": ["GenTie.blake2b_tables_tie", "GenTie.blake2b_params_tie", "GenTie.kdf_constants_tie"],
-    "builds": ["stable"],
+    "builds": ["stable", "nightly"],
     "rule": "cases: every subkey length 0..=80 x ids {0,1,2^32,2^63,2^64-1,255,256,2^32-1,PRNG} x key/context sets (zero, PRNG, 0xff); "
             "each case is run on dryoc (catch_unwind), on the extracted Coq model (correspondence) and on libsodium (search); "
             "non-trivial = length in 16..=64 (reaches the hash), distinct by (op,args)",
